@@ -266,7 +266,36 @@ def real_len(hist):
     return len([e for e in hist if e[0] != "start"])
 
 
+def inputs_intact_chunk(cases):
+    """one computation per catalogue (operation, variant) with in-memory inputs and with Zarr inputs: the NumPy arrays handed to
+    cubed and the source Zarr stores must be byte-identical afterwards"""
+    from ..runcase import run_case
+    from ..common import worker_seed
+    out = []
+    n = 0
+    for case in cases:
+        for src in (None, "from_zarr"):
+            if src and (not case["inputs"] or case["params"].get("src")):
+                continue
+            c2 = dict(case, params=dict(case["params"], **({"src": src} if src else {})))
+            for optimize in (True, False):
+                obs = run_case(c2, seed=worker_seed(), optimize=optimize)
+                n += 1
+                if obs.phase != "OK":
+                    continue
+                if obs.input_modified:
+                    out.append((dict(kind="source-modified", after_store_of_lazy_relative=False, op=case["op"]), dict(part="inputs", case=c2),
+                                f"{case['op']} {case['params']}: the in-memory input arrays {obs.input_modified} handed to cubed were modified by compute (optimize_graph={optimize})"))
+                if obs.source_store_modified:
+                    out.append((dict(kind="source-modified", after_store_of_lazy_relative=False, op=case["op"]), dict(part="inputs", case=c2),
+                                f"{case['op']} {case['params']}: the source Zarr store {obs.source_store_modified} was modified by compute (optimize_graph={optimize})"))
+    return n, out
+
+
 def replay_case(case):
+    if case.get("part") == "inputs":
+        _, out = inputs_intact_chunk([case["case"]])
+        return [Problem(sig, c, t) for sig, c, t in out]
     st, p = replay([tuple(e) for e in case["history"]])
     if st is None:
         return []
@@ -319,6 +348,27 @@ def run(ctx):
                 nxt.append(hist)
         levels.append(dict(depth=depth, histories=len(items), new_states=len(nxt)))
         frontier = nxt
+    # inputs stay intact for every catalogued operation (one multi-block case per operation variant)
+    from ..catalog import cases as catalogue_cases
+    pick = {}
+    for c in catalogue_cases("quick"):
+        if not c["inputs"]:
+            continue
+        nb = [tuple(-(-n // ch) if n else 1 for n, ch in zip(i["shape"], i["chunks"])) for i in c["inputs"]]
+        flat = [b for t in nb for b in t]
+        # block layout class: every axis one block / every axis several blocks / mixed (some axis in a single chunk)
+        cls = "single" if all(b == 1 for b in flat) else ("multi" if flat and all(b > 1 for b in flat) else "mixed")
+        key = (c["op"], c["params"].get("fn"), c["params"].get("mode"), c["params"].get("op"), str(c["params"].get("axis")), len(c["inputs"][0]["shape"]), cls)
+        size = sum(int(np.prod(i["shape"])) for i in c["inputs"])
+        if all(all(i["shape"]) for i in c["inputs"]) and (key not in pick or size > pick[key][1]):
+            pick[key] = (c, size)  # the largest case of each class (a one-element array cannot show an in-place reordering)
+    slice_cases = [v[0] for v in pick.values()]
+    ninputs = 0
+    for n, out in ctx.pmap(inputs_intact_chunk, [slice_cases[i::16] for i in range(16)]):
+        ninputs += n
+        for sig, case, text in out:
+            ctx.problem(sig, case, text)
+    ctx.set("inputs_intact_computations", ninputs)
     ctx.set("states", len(seen))
     ctx.set("transitions", transitions)
     ctx.set("traces_validated_against_impl", transitions)
